@@ -11,6 +11,7 @@
 # express or implied. See the License for the specific language governing
 # permissions and limitations under the License.
 import logging
+import copy
 from typing import List, Optional, Dict, Any
 
 from syne_tune.optimizer.schedulers.searchers.gp_fifo_searcher import GPFIFOSearcher
@@ -139,7 +140,7 @@ class CostAwareGPFIFOSearcher(MultiModelGPFIFOSearcher):
     def clone_from_state(self, state):
         # Create clone with mutable state taken from 'state'
         init_state = decode_state(state["state"], self._hp_ranges_in_state())
-        output_skip_optimization = state["skip_optimization"]
+        output_skip_optimization = copy.deepcopy(state["skip_optimization"])
         output_estimator = self.state_transformer.estimator
         # Call internal constructor
         new_searcher = CostAwareGPFIFOSearcher(
